@@ -16,7 +16,9 @@ TECHNIQUE = ('template/interface agreement: free-variable and compared-literal a
              'optimise_numeric_binop is enumerated over its COMPLETE finite domain (operator x is_float x return kind, unknown tests fork '
              'both ways) with a whitelisted expression evaluator, and the selected template is expanded with the same evaluator for every '
              'domain point; path conditions + truth tables for the constant-range guards; reference tables from the running interpreter '
-             '(PyNumber_*/PyObject_RichCompare dispatch observed through ctypes.pythonapi, CPython headers); clang AST for declared copies')
+             '(PyNumber_*/PyObject_RichCompare dispatch observed through ctypes.pythonapi, CPython headers); clang AST for declared copies; '
+             'ZDIV: guard extraction + parameter tracing through forwarding calls in the expanded templates, flag expression evaluated on the node class\'s '
+             'default attribute state corrected by a writer analysis (guards on self.type.is_pyobject)')
 DECIDES = ('(P1) the context keys passed by optimise_numeric_binop are exactly the variables the three template sections read; '
            '(P2) every string literal a template compares op/order/c_op with lies in that variable\'s value domain; '
            '(P3) for every reachable point of operator x order x return kind x int/float constant the C name computed in Python is a function '
@@ -27,13 +29,20 @@ DECIDES = ('(P1) the context keys passed by optimise_numeric_binop are exactly t
            'method, and every operator symbol of Visitor.find_special_method_for_binary_operator reaches a handler whose operator has the '
            'symbol\'s special method; (RANGE) the integer constants admitted (|c| <= cut-off) fit a 32-bit C long and the multiplication '
            'head-room the template reserves, shift handlers only pass right-hand constant counts within 0..63; '
-           '(SIB1) the inlined floor-division / modulo adjustments are equal to the fall-through value of CMath.c DivInt / ModInt (early `if (...) return c;` special cases aside).')
-NOT_DECIDED = ('the digit-level arithmetic of the fast paths (unpacking, overflow of + and - inside the C long branch, float rounding), the '
+           '(SIB1) the inlined floor-division / modulo adjustments are equal to the fall-through value of CMath.c DivInt / ModInt (early `if (...) return c;` special cases aside); '
+           '(ZDIV) for every reachable CObj point of an operator for which Python raises ZeroDivisionError on a zero right operand (/ // %): the expanded template '
+           'contains a ZeroDivisionError raise; the entry-function parameter its guard depends on (traced through the forwarding calls) receives from '
+           'optimise_numeric_binop a value that is TRUE for the operator\'s node class (ExprNodes.binop_node_classes) in the attribute state an object-typed '
+           'operation can have (class defaults; writers guarded by `not self.type.is_pyobject` excluded).')
+NOT_DECIDED = ('ZDIV does not decide that EVERY path to the C division passes a zero test (only that the raise exists and its flag is passed as true), nor the '
+               'explicit cdiv()/cmod() and C++-operand states; the digit-level arithmetic of the fast paths (unpacking, overflow of + and - inside the C long branch, float rounding), the '
                'nb_<slot> fallbacks chosen by the template, the generic NotImplemented/subclass protocol of the CPython fallbacks, and whether '
                'the coercions around the call preserve the result type.  The I3 clause of DESIGN.md is decided in the exact form "passed '
                'arguments vs expanded prototype"; the declared CFuncType is only compared for the constant parameter and the return kind.')
 ASSUMPTIONS = ['C long has at least 32 bits and long long at least 64 bits (C11 5.2.4.2.1); PyLong_SHIFT is 15 or 30 (CPython longintrepr.h)',
-               'the special method reached by PyNumber_<Op>/PyObject_RichCompare in the interpreter running the check is the one the target CPython uses']
+               'the special method reached by PyNumber_<Op>/PyObject_RichCompare in the interpreter running the check is the one the target CPython uses',
+               'ZDIV: the node handed to optimise_numeric_binop by the operator handlers is the binop node itself, and its result type is a Python object '
+               '(the handlers are only dispatched for object / builtin-typed operands), so writers guarded by `not self.type.is_pyobject` have not run']
 EXEMPT = {
     ('C02-P2', "PyLongBinop.impl:op:'LShift':op=='LShift'orop=='Rshift'"):
         "DESIGN.md section 7: the misspelt 'LShift' only disables `if (!negative_shift_works && lla < 0) goto fallback` in the long long branch; "
@@ -60,6 +69,16 @@ MUTATIONS = [   # (file, single edit, rule that reported it) -- all run on a scr
     ('Cython/Utility/Optimize.c', "PyLongCompare: function name {{op}}{{order}} -> {{order}}{{op}}", 'C02-P3 name'),
     ('Cython/Compiler/Visitor.py', "find_special_method_for_binary_operator: '-' -> '__add__'", 'C02-OPS'),
     ('Cython/Compiler/ExprNodes.py', 'find_special_bool_compare_function: "Eq" if self.operator == "==" else "Ne" -> swapped', 'C02-OPS'),
+    ('Cython/Compiler/Optimize.py', "seed C02b: zerodivision_check = arg_order == 'CObj' and bool(node.zerodivision_check if isinstance(node, DivNode) else False)", 'C02-ZDIV flag'),
+    ('Cython/Compiler/Optimize.py', "optimise_numeric_binop: `not node.cdivision` -> `node.cdivision`", 'C02-ZDIV flag'),
+    ('Cython/Compiler/Optimize.py', "optimise_numeric_binop: zerodivision_check = arg_order == 'ObjC' and (...)", 'C02-ZDIV flag'),
+    ('Cython/Compiler/Optimize.py', "optimise_numeric_binop: isinstance(node, ExprNodes.DivNode) -> isinstance(node, ExprNodes.ModNode) (c / x loses the check)", 'C02-ZDIV flag'),
+    ('Cython/Compiler/Optimize.py', "optimise_numeric_binop: the `inplace` extra argument is no longer appended (flag lands on the wrong parameter)", 'C02-ZDIV flag (+C02-P3 arity)'),
+    ('Cython/Utility/Optimize.c', "PyFloatBinop: _needs_check=(order == 'CObj' and c_op in '%')", 'C02-ZDIV raise'),
+    ('Cython/Utility/Optimize.c', "PyFloatBinop: `if (unlikely(!zerodivision_check && ...` (negated flag)", 'C02-ZDIV raise'),
+    ('Cython/Utility/Optimize.c', "PyLongBinop: __Pyx_Unpacked_...(op1, op2, intval, inplace, inplace) (flag not forwarded)", 'C02-ZDIV flag'),
+    ('behaviour-preserving (all silent)', "ZDIV: flag computed by an if/else with a renamed local; De Morgan form `not (arg_order != 'CObj' or (node.cdivision if ... else True))`; "
+                                          "C parameter zerodivision_check renamed in PyFloatBinop proto+impl", 'silent'),
     ('behaviour-preserving (all silent)', "rename local numval -> constant_node; cut-off rewritten `not (abs(c) <= 1 << 30)`; rows of the c_op dict reordered; "
                                           "DivInt copy with renamed locals and `q = q - ...`; head-room +30 -> +20; shift guards merged into one positive `if ... and 0 < c < 64`; "
                                           "two handler methods reordered with an extra local", 'silent'),
